@@ -54,8 +54,10 @@ type world struct {
 	entries int
 	// uploadsLeft is the number of uploads that have not returned yet.
 	uploadsLeft int
-	// writerDone is set when the writer thread has given up or closed.
-	writerDone bool
+	// writerDone is set when the writer thread (every writer thread, if
+	// there are several) has given up or closed.
+	writerDone             bool
+	writers, writersDone int
 	// want is the expected contents (single mutator per scenario).
 	want []byte
 	// Freeze tracking (maintained by the monitor): contents at the
@@ -100,6 +102,10 @@ func (w *world) result(format string, args ...any) {
 	w.results = append(w.results, fmt.Sprintf(format, args...))
 	if strings.HasPrefix(format, "W=") {
 		w.writerDone = true
+	}
+	if strings.HasPrefix(format, "%s=W:") {
+		w.writersDone++
+		w.writerDone = w.writersDone >= w.writers
 	}
 	w.mu.Unlock()
 }
@@ -461,7 +467,26 @@ const (
 // writer opens the file for writing (unless it already holds the descriptor
 // that Build left open), changes the contents once and closes.
 func (w *world) writer(open, truncOnOpen bool, m mutation) {
-	w.x.Go("W", func() {
+	w.writerNamed("W", open, truncOnOpen, m)
+}
+
+// writerNamed: several mutating threads on the same file (named W1, W2, ...;
+// "W" is the single writer of the older scenarios). Their mutations commute
+// (write of byte 1, extension to 3 bytes), so that the expected contents do
+// not depend on their order.
+func (w *world) writerNamed(name string, open, truncOnOpen bool, m mutation) {
+	multi := name != "W"
+	if multi {
+		w.writers++
+	}
+	done := func(what string) {
+		if multi {
+			w.result("%s=W:%s", name, what)
+		} else {
+			w.result("W=%s", what)
+		}
+	}
+	w.x.Go(name, func() {
 		x := w.x
 		if open {
 			var attr virtual.Attributes
@@ -473,7 +498,7 @@ func (w *world) writer(open, truncOnOpen bool, m mutation) {
 				if w.oracles() && w.pf().closed == 0 {
 					w.fail("open-failed", "VirtualOpenSelf returned status %d although the file was never released", s)
 				}
-				w.result("W=stale")
+				done("stale")
 				return
 			}
 			if truncOnOpen {
@@ -481,7 +506,7 @@ func (w *world) writer(open, truncOnOpen bool, m mutation) {
 				w.want = nil
 				w.mu.Unlock()
 			}
-			x.ResetLocal("W:opened")
+			x.ResetLocal(name + ":opened")
 		}
 		switch m {
 		case mutWrite:
@@ -522,12 +547,12 @@ func (w *world) writer(open, truncOnOpen bool, m mutation) {
 			}
 			w.mu.Unlock()
 		}
-		x.ResetLocal("W:mutated")
+		x.ResetLocal(name + ":mutated")
 		w.releaseBegin()
 		w.leaf.VirtualClose(virtual.ShareMaskWrite)
 		x.CheckNoLocksHeld("VirtualClose")
 		w.releaseEnd()
-		w.result("W=done")
+		done("done")
 	})
 }
 
@@ -703,6 +728,18 @@ func scenarios() []*mc.Scenario {
 		w.uploader("U2")
 		w.writer(true, false, mutWrite)
 	}))
+	// TWO mutating calls (write || allocate) parked behind ONE frozen
+	// descriptor (the upload): when the upload closes it, BOTH must be woken
+	// (a wake-up channel per waiter, of which only the last is closed, leaves
+	// the earlier waiter asleep for ever).
+	for _, nfs := range []bool{false, true} {
+		suffix := map[bool]string{false: "fuse", true: "nfs"}[nfs]
+		r = append(r, concScenario("upload-write-allocate/"+suffix, worldCfg{nfs: nfs, initial: "ab"}, 0, func(w *world) {
+			w.uploader("U")
+			w.writerNamed("W1", true, false, mutWrite)
+			w.writerNamed("W2", true, false, mutAllocate)
+		}))
+	}
 	// The file is still open for writing when the upload starts: the
 	// upload waits for the close or for the delay to expire, whichever
 	// comes first.
